@@ -191,8 +191,16 @@ async def amain(spec: dict) -> dict:
         async for x in it:
             rec[key].append(f(x))
 
+    async def sub_states() -> None:
+        import multiprocessing
+        async for x in nl.subscribe_state():
+            rec['states'].append(_clean(x))
+            if x == 'finished':
+                # C15: once 'finished' is reported the run's child process has exited
+                rec.setdefault('children_alive_at_finished', []).append([p.pid for p in multiprocessing.active_children() if p.is_alive()])
+
     tasks = [
-        asyncio.create_task(sub('states', nl.subscribe_state())),
+        asyncio.create_task(sub_states()),
         asyncio.create_task(sub('run_info', nl.subscribe_run_info())),
         asyncio.create_task(sub('trace_info', nl.subscribe_trace_info())),
         asyncio.create_task(sub('trace_ids', nl.subscribe_trace_ids())),
